@@ -22,7 +22,7 @@ def plan(tier, seed):
 
 
 def floors(tier):
-    return {"evaluations": 1500, "strata": ["lower-only", "upper-only", "both-bounds-fit", "both-bounds-unfit", "packing-exact-fit", "packing-slack-fit", "packing-barely-unfit", "packing-gross-unfit", "deeper-layer", "upper-bound-at-origin", "all-targets-negative"],
+    return {"evaluations": 1500, "strata": ["lower-only", "upper-only", "both-bounds-fit", "both-bounds-unfit", "packing-exact-fit", "packing-slack-fit", "packing-barely-unfit", "packing-gross-unfit", "deeper-layer", "upper-bound-at-origin", "all-targets-negative", "direct-solver-after-other-options"],
             "events": {"Force.compute": 1000, "layers_observed": 1500}, "distinct_nontrivial": 300}
 
 
